@@ -43,8 +43,9 @@ def run(tier, replay):
     states = trans = 0
     cases = []
     n_cex = 0
+    n_beh = 0
     for cfg, ng, nl in mcs:
-        res, cex, _ = dc.mc("KMemberOfMC", cfg, PID, 4 if quick else 8, 3000)
+        res, cex, beh = dc.mc("KMemberOfMC", cfg, PID, 1, 3000, kinds=(1, 2, 3, 4, 5))
         states += res["distinct"]; trans += res["generated"]
         n_cex += len(cex)
         cs = cases_from_cex(cex, ng, nl)
@@ -55,6 +56,10 @@ def run(tier, replay):
         single = [c for c in cs if len(c["acts"]) == 1]
         step = max(1, (len(multi) + len(single)) // cap)
         cases += multi[::step] + single[::max(1, step * 4)]
+        # plus sampled full-length model behaviours that stay exact (delete / revive sequences included)
+        bs = cases_from_cex(beh, ng, nl)
+        cases += bs[:: max(1, len(bs) // (120 if quick else 1500))]
+        n_beh += len(beh)
     parts = []
     if replay:
         first = json.loads(lib.read_lines(replay)[0])
@@ -89,7 +94,7 @@ def run(tier, replay):
     n_hist = sum(1 for l in lines if '"a":"reset"' in l)
     R.coverage = {
         "states": states, "transitions": trans,
-        "model_counterexamples": n_cex, "model_counterexamples_replayed": len(cases) if not replay else 0,
+        "model_counterexamples": n_cex, "model_behaviours_sampled": n_beh, "model_histories_replayed": len(cases) if not replay else 0,
         "traces_validated_against_impl": n_cases + n_hist,
         "observed_states_judged": len(lines),
         "cases_on_real_plugin": n_cases, "random_histories": n_hist,
